@@ -289,7 +289,8 @@ func propC16(g *G, w *CaseW, rep *Report, thorough bool) {
 		if strings.ContainsAny(nm, " \t\r\n:") || nm == "" {
 			continue
 		}
-		in := Input{Kind: kHdrLine, Buf: nm + g.pick("", " ") + ": v\r\nX"}
+		pre := g.pick("", "", "v:x\r\n", "INVITE sip:a@b SIP/2.0\r\n", "i:1\r\n")
+		in := Input{Kind: kHdrLine, Buf: pre + nm + g.pick("", " ", "\t ") + ": v\r\nX", Offs: len(pre)}
 		c := inputCase(&in, nil)
 		out, res := runCase(c)
 		w.emitCase(c, out)
@@ -534,6 +535,10 @@ func checkAdjust(rep *Report, w *CaseW, s []byte, offs, l int) {
 			rep.violate(fmt.Sprintf("AdjustOffs({%d,%d}) on %q: component %d no longer denotes the same bytes", offs, l, s, i), "adjust-moved", replay)
 			return
 		}
+		if present(*of[i]) && int(nf[i].Offs) != int(of[i].Offs)-int(r.U.Scheme.Offs)+offs {
+			rep.violate(fmt.Sprintf("AdjustOffs({%d,%d}) on %q: component %d moved from %d to %d, not by the same amount as the scheme", offs, l, s, i, of[i].Offs, nf[i].Offs), "adjust-moved", replay)
+			return
+		}
 		if present(*of[i]) != present(*nf[i]) {
 			rep.violate(fmt.Sprintf("AdjustOffs({%d,%d}) on %q: component %d changed presence", offs, l, s, i), "adjust-moved", replay)
 			return
@@ -642,6 +647,14 @@ func propC18(g *G, w *CaseW, rep *Report, thorough bool) {
 
 // C11 for relocation: moving to {k, len} shifts every non-empty component by k
 func adjustShift(g *G, w *CaseW, rep *Report, thorough bool) {
+	enumStrings(uriAlpha, scale(thorough, 3, 4), func(s string) {
+		if r := parseURI([]byte("sip:" + s)); r.Err == 0 && r.Panic == "" {
+			u := "sip:" + s
+			for _, k := range []int{1, 5, 800, 65535 - len(u)} {
+				checkAdjust(rep, w, []byte(u), k, len(u)+g.n(2))
+			}
+		}
+	})
 	for i := 0; i < scale(thorough, 400, 4000); i++ {
 		s := g.uri()
 		checkAdjust(rep, w, []byte(s), g.n(65535-len(s)), len(s))
